@@ -1,8 +1,11 @@
 import BromeliaVerif.Model.Parse
+import BromeliaVerif.Model.Inbound
 /-! One iteration of the receive worker `DiameterAssociation.recv_message_from_queue`
-(bromelia/setup.py): take the association lock, take the bytes accumulated by the transport, decode
-them, enqueue the messages; library decoding errors are logged and the stream is discarded; the lock
-is released in a `finally`. A foreign exception would propagate and end the worker thread. -/
+(bromelia/setup.py): take the association lock, take the bytes accumulated by the transport, prepend
+the bytes of the partial message carried over from the previous iteration, split off the complete
+messages (`split_data_stream`), decode them, enqueue the messages; library decoding errors are logged
+and the stream is discarded; the lock is released in a `finally`. A foreign exception would
+propagate and end the worker thread. -/
 namespace BV.Worker
 open BV BV.Dict BV.Parse
 
@@ -10,12 +13,24 @@ structure Out where
   alive : Bool               -- the worker thread continues with the next iteration
   lockHeld : Bool            -- `association.lock` still held after the iteration
   enqueued : List LMsg       -- messages put on `_recv_messages`, in order
+  carry : Bytes              -- `_recv_partial_stream` after the iteration
 deriving Inhabited
 
-def step (dict : List Entry) (stream : Bytes) : Out :=
-  match loadMsgs dict stream with
-  | .ok ms => { alive := true, lockHeld := false, enqueued := ms }
-  | .error (.std _) => { alive := false, lockHeld := false, enqueued := [] }   -- uncaught, `finally` runs
-  | .error _ => { alive := true, lockHeld := false, enqueued := [] }           -- caught and logged
+/-- `split_data_stream`: (bytes of the complete messages, bytes of the trailing partial one); when what
+    remains has a header whose length field is below 20 the whole stream is handed to the decoder
+    (which rejects it) and nothing is carried -/
+def splitData (s : Bytes) : Bytes × Bytes :=
+  let r := Inbound.splitStream s.length s
+  if 20 ≤ r.2.length ∧ Inbound.lenField r.2 < 20 then (s, []) else (r.1.flatten, r.2)
+
+/-- what the iteration does with the decoder's verdict -/
+def finish (r : Except Err (List LMsg)) (carry : Bytes) : Out :=
+  match r with
+  | .ok ms => { alive := true, lockHeld := false, enqueued := ms, carry := carry }
+  | .error (.std _) => { alive := false, lockHeld := false, enqueued := [], carry := carry }   -- uncaught, `finally` runs
+  | .error _ => { alive := true, lockHeld := false, enqueued := [], carry := carry }           -- caught and logged
+
+def step (dict : List Entry) (carry stream : Bytes) : Out :=
+  finish (loadMsgs dict (splitData (carry ++ stream)).1) (splitData (carry ++ stream)).2
 
 end BV.Worker
